@@ -19,17 +19,19 @@ import (
 // (`Select(g...)`, `AddWith(g)`, `And(g...)`, a field of a planner struct, an alias `x := g` that is then handed on)
 // makes every plan of the process share it; any in-place write of `Gen.PlannerListWrites` then reaches the next
 // translation. This fact gives per variable
-//   kind    value (basic literal) | slice | map | array | ptr | func | struct:T | type:T | call:<constructor>
-//   uses    every syntactic use anywhere under reader/ (same package: bare identifier not shadowed; other packages:
-//           pkg.Name), classified by its context:
-//             init:<var>          inside the initialiser of another package-level variable
-//             method:<M>          g.M(…)                        field:<f> g.f (read)     index-read  g[k] (read)
-//             range / len / cap   for … range g / len(g)
-//             arg:<callee>        passed to a call              spread:<callee>          passed as g...
-//             ret@<func>          returned                      alias:<x>                x := g / x = g / var x = g
-//             via(<x>):<use>      a use of the alias x inside the same function (one level)
-//             lit:<T>             element/field of a composite literal
-//             assign / index-write / field-write / addr / slice / other:<node>
+//
+//	kind    value (basic literal) | slice | map | array | ptr | func | struct:T | type:T | call:<constructor>
+//	uses    every syntactic use anywhere under reader/ (same package: bare identifier not shadowed; other packages:
+//	        pkg.Name), classified by its context:
+//	          init:<var>          inside the initialiser of another package-level variable
+//	          method:<M>          g.M(…)                        field:<f> g.f (read)     index-read  g[k] (read)
+//	          range / len / cap   for … range g / len(g)
+//	          arg:<callee>        passed to a call              spread:<callee>          passed as g...
+//	          ret@<func>          returned                      alias:<x>                x := g / x = g / var x = g
+//	          via(<x>):<use>      a use of the alias x inside the same function (one level)
+//	          lit:<T>             element/field of a composite literal
+//	          assign / index-write / field-write / addr / slice / other:<node>
+//
 // and the derived list `plannerGlobalsIntoPlan`: variables of a kind other than `value` with a use outside the
 // read-only set {init, method, field, index-read, index-key, range, len, cap, read (operand of an operator / condition), deref} and outside the reviewed hand-over of a lexer
 // definition to the parser generator (`arg:Lexer`, `arg:MustSimple`, `ret@Symbols`). Fails closed: a new variable, a
